@@ -25,3 +25,10 @@ var _ json.Marshaler = IntrospectAccessToken200JSONResponse{}
 func (r IntrospectAccessToken200JSONResponse) MarshalJSON() ([]byte, error) {
 	return json.Marshal(TokenIntrospectionResponse(r))
 }
+
+var _ json.Marshaler = IntrospectAccessTokenExtended200JSONResponse{}
+
+// MarshalJSON makes sure the additional properties (claims derived from the presented credentials) are part of the extended response as well.
+func (r IntrospectAccessTokenExtended200JSONResponse) MarshalJSON() ([]byte, error) {
+	return json.Marshal(ExtendedTokenIntrospectionResponse(r))
+}
